@@ -26,7 +26,7 @@ Lemma x4by2_ok d lo hi : norm2 w d -> 0 <= lo < B * B -> 0 <= hi < d ->
   x4by2 w d lo hi = ((lo + B * B * hi) / d, (lo + B * B * hi) mod d).
 Proof. reflexivity. Qed.
 
-Lemma xmul_sub_ok c a b c' k : wf c -> wf a -> wf b -> (length a + length b <= length c)%nat ->
+Lemma xmul_sub_ok c a b c' k : wf c -> wf a -> wf b -> length c = (length a + length b)%nat ->
   xmul_sub w c a b = (c', k) ->
   wf c' /\ length c' = length c /\ value c' + B ^ len c * k = value c - value a * value b.
 Proof.
